@@ -124,3 +124,24 @@ Theorem C11_withdraw_handlers_generated :
      end).
 Proof. split; [exact gen_withdrawUnlocked|split; [exact gen_withdrawLockedAndUnlocked|exact model_is_withdrawUnlocked]]. Qed.
 Print Assumptions C11_withdraw_handlers_generated.
+
+(* the handler that puts (time-locked) tokens into an existing subaccount, x/subaccount/keeper/balance.go TopUp with sumLockedBalance, is
+   generated over the state it reaches (owner has a subaccount, its summary and lock records, the two bank balances, the block time): it
+   refuses an unlock time before the block time or one that already has a record, adds the sum to the deposited amount, writes the lock
+   records and moves exactly the sum from the funding account; the model's sub_topup refuses exactly when it does *)
+Theorem C11_topup_generated :
+  (forall x locks cb sb now,
+     K_subtop_TopUp (subtop_state true x true cb sb now) (map glb_of locks) =
+     match sum_locks now locks with
+     | None => None
+     | Some tot =>
+         if existsb (fun l => existsb (fun o => fst o =? fst l) (sa_locks x)) locks then None
+         else if cb <? tot then None
+         else Some (subtop_state true (sub_with x (sa_dep x + tot) (sa_spent x) (sa_wd x) (sa_lost x) (set_locks (sa_locks x) locks)) true (cb - tot) (sb + tot) now)
+     end) /\
+  (forall s creator owner locks x,
+     forallb (lock_ok (c_now s)) locks = true -> sub_by_owner (c_subs s) owner = Some x ->
+     (sub_topup s creator owner locks = None <->
+      K_subtop_TopUp (subtop_state true x true (bget (c_bank s) creator) (bget (c_bank s) (sub_addr x)) (c_now s)) (map glb_of locks) = None)).
+Proof. split; [exact gen_TopUp|exact model_sub_topup]. Qed.
+Print Assumptions C11_topup_generated.
